@@ -104,7 +104,7 @@ def run(res):
     res.cov["rule"] = ("corr-mw: three generated target types (flat, nested + pointer, struct-level marker) x both variants; per (type, variant) ONE middleware instance serves a "
                        "shuffled history of requests sequentially and then the same requests concurrently; bodies: valid, every single-field deviation, absent fields, random "
                        "combinations (type-correct values weighted), null, wrong JSON types, truncated, empty, whitespace, trailing garbage, two values, BOM, 10001-deep nesting, invalid "
-                       "UTF-8, duplicate and case-folded keys; contexts: live, cancelled, expired, flipping at the k-th Err() call (both kinds); oracle = fresh json.Decoder on the same "
+                       "UTF-8, duplicate and case-folded keys; contexts: live, cancelled, expired, cancelled / expired WITH A CAUSE (WithCancelCause, WithDeadlineCause), a child of a cancelled parent, flipping at the k-th Err() call (both kinds); oracle = fresh json.Decoder on the same "
                        "bytes + independent Validate/ValidateContext of the fresh value; status, body and handler-invocation count observed through httptest; distinct = "
                        "(type, variant, body, ctx); non-trivial = body decodes")
     res.cov["samples"] = ["theorem Props.c20_plain", "theorem Props.c20_ctx"] + [
